@@ -111,7 +111,7 @@ impl Property for C03 {
                 Tier::Quick => 14,
                 Tier::Thorough => *rng.pick(&[8usize, 14, 14, 24, 48]),
             };
-            let mut cmds = gen::gen_program(rng, &sw, Flavor::Compile, max_cmds);
+            let mut cmds = if rng.chance(12) { gen::goto_machine(rng, false) } else { gen::gen_program(rng, &sw, Flavor::Compile, max_cmds) };
             if rng.chance(25) {
                 gen::optimizer_hazard(rng, &mut cmds);
             }
